@@ -137,6 +137,25 @@ def elementwise(eng, f, *vals, dtype=None):
     I = _I()
     vals = [unwrap(v) for v in vals]
     vals = [as_array_if_seq(eng, v) for v in vals]
+    masked = [v for v in vals if isinstance(v, I.Opaque) and v.kind in ("masked", "masked-expr")]
+    if masked:
+        # a[mask] op b[mask] is (a op b)[mask]: compaction preserves order, so element-wise arithmetic commutes with the selection
+        mask = masked[0].data["mask"]
+        for v in masked[1:]:
+            if not same_mask(v.data["mask"], mask):
+                raise Unsupported("arithmetic between selections by different masks")
+        if any(isinstance(v, I.Arr) for v in vals):
+            raise Unsupported("arithmetic between a masked selection and a full array")
+
+        def mfn(*i):
+            args = []
+            for v in vals:
+                if isinstance(v, I.Opaque):
+                    args.append(v.data["afn"](*i) if v.kind == "masked" else v.data["fn"](*i))
+                else:
+                    args.append(v)
+            return f(*args)
+        return I.Opaque("masked-expr", mask=mask, fn=mfn)
     if not any(isinstance(v, I.Arr) for v in vals):
         return f(*vals)
     shape = ()
@@ -162,6 +181,19 @@ def elementwise(eng, f, *vals, dtype=None):
         for d in dts[1:]:
             dtype = dtype_join(dtype, d)
     return I.Arr(shape, fn, dtype)
+
+
+def same_mask(m1, m2):
+    """Two boolean arrays denote the same mask (same object, or equal element functions at a generic index)."""
+    if m1 is m2:
+        return True
+    if len(m1.shape) != len(m2.shape) or not all(dim_eq(a, b) for a, b in zip(m1.shape, m2.shape)):
+        return False
+    idx = [z3.Int(f"mask_i{k}") for k in range(len(m1.shape))]
+    a, b = m1.fn(*idx), m2.fn(*idx)
+    if not T.is_sym(a) or not T.is_sym(b):
+        return (not T.is_sym(a)) and (not T.is_sym(b)) and bool(a) == bool(b)
+    return z3.is_true(z3.simplify(T.zb(a) == T.zb(b))) or T.zb(a).eq(T.zb(b))
 
 
 def as_array_if_seq(eng, v):
@@ -755,7 +787,7 @@ class MaskedSelection:
                 if a.ndim == mask.ndim:
                     vals = [a.fn(*i) for i in sel]
                     return I.Arr((len(vals),), lambda k: select_const(k, [lambda v=v: v for v in vals]), a.dtype)
-        return I.Opaque("masked", a=a, mask=mask)
+        return I.Opaque("masked", a=a, afn=a.fn, mask=mask)     # afn: snapshot of the contents at selection time
 
 
 def _all_indices(shape):
@@ -807,7 +839,7 @@ def arr_setitem(eng, a, idx, value):
     check_writable(a)
     old = a.fn
     value = as_array_if_seq(eng, value)
-    if a.dtype == "int" and val_dtype(value) == "real" and not isinstance(value, I.Arr):
+    if a.dtype == "int" and not isinstance(value, (I.Arr, I.Opaque)) and val_dtype(value) == "real":
         # NumPy truncates silently; integers stay integers in the model only if value is integral
         c = value
         if isinstance(c, Fraction) and c.denominator == 1:
@@ -826,13 +858,13 @@ def arr_setitem(eng, a, idx, value):
         mnd = mask.ndim
         if isinstance(value, I.Arr):
             raise Unsupported("masked assignment of an array value")
-        if isinstance(value, I.Opaque) and value.kind == "masked" and value.data["mask"] is mask:
-            src = value.data["a"].fn
+        if isinstance(value, I.Opaque) and value.kind == "masked" and same_mask(value.data["mask"], mask):
+            src = value.data["afn"]
             a.fn = lambda *i: T.ite(mfn(*i[:mnd]), src(*i), old(*i))
             return
         if isinstance(value, I.Opaque) and value.kind == "masked-expr":
             vf = value.data["fn"]
-            if value.data["mask"] is not mask:
+            if not same_mask(value.data["mask"], mask):
                 raise Unsupported("masked assignment from a different mask")
             a.fn = lambda *i: T.ite(mfn(*i[:mnd]), vf(*i), old(*i))
             return
